@@ -25,13 +25,13 @@ CONC = ("hlmon", dict(runner="conc"))
 PROPS = {
     "C01": dict(level="exploration", lanes=[CONC, ("hlmon", dict(runner="seqfam"))]),
     "C02": dict(level="exploration", lanes=[
-        CONC, ("hlmon", dict(runner="blockfam")), ("hlmon", dict(runner="tuplefam")), ("hlmon", dict(runner="racefam")),
+        CONC, ("hlmon", dict(runner="conc_panic")), ("hlmon", dict(runner="blockfam")), ("hlmon", dict(runner="tuplefam")), ("hlmon", dict(runner="racefam")),
         ("miri", dict(runner="racefam", mode="seeds", seeds_quick=16, seeds_thorough=256, canary="canary_race")),
         ("tsan", dict(runner="racefam", thorough_only=True)),
     ]),
-    "C03": dict(level="exploration", lanes=[("hlmon", dict(runner="seqfam")), ("hlmon", dict(runner="blockfam")), ("hlmon", dict(runner="tuplefam")), CONC]),
-    "C04": dict(level="exploration", lanes=[("hlmon", dict(runner="tryfam")), ("hlmon", dict(runner="blockfam")), ("hlmon", dict(runner="tuplefam")), CONC]),
-    "C05": dict(level="exploration", lanes=[CONC, ("hlmon", dict(runner="seqfam")), ("hlmon", dict(runner="blockfam")), ("hlmon", dict(runner="tuplefam"))]),
+    "C03": dict(level="exploration", lanes=[("hlmon", dict(runner="seqfam")), ("hlmon", dict(runner="blockfam")), ("hlmon", dict(runner="tuplefam")), ("hlmon", dict(runner="faultfam")), CONC]),
+    "C04": dict(level="exploration", lanes=[("hlmon", dict(runner="tryfam")), ("hlmon", dict(runner="blockfam")), ("hlmon", dict(runner="tuplefam")), ("hlmon", dict(runner="poisonfam")), CONC]),
+    "C05": dict(level="exploration", lanes=[CONC, ("hlmon", dict(runner="seqfam")), ("hlmon", dict(runner="tryfam")), ("hlmon", dict(runner="blockfam")), ("hlmon", dict(runner="tuplefam")), ("hlmon", dict(runner="conc_panic"))]),
     "C06": dict(level="exploration", lanes=[("hlmon", dict(runner="keyfam"))]),
     "C07": dict(level="exploration", lanes=[("hlmon", dict(runner="dupfam")), ("corpus", dict()), ("matrix", dict())]),
     "C08": dict(level="exploration", lanes=[("hlmon", dict(runner="orderfam"))]),
@@ -42,7 +42,7 @@ PROPS = {
     "C13": dict(level="exploration", lanes=[("hlmon", dict(runner="tryfam")), ("hlmon", dict(runner="tuplefam"))]),
     "C14": dict(level="other", lanes=[("corpus", dict()), ("matrix", dict()), ("hlmon", dict(runner="keyfam"))],
                 explanation="Compile-gated execution. The statement quantifies over programs the compiler must reject; a monitor cannot observe a program that does not exist, so each escape route is attempted: rustc's verdict on a minimal offending program (with a compiling, running twin that differs only in the offending line) decides acceptance, and every offending program that is accepted is executed and has to demonstrate the harm itself (WITNESS line; Miri report in the thorough tier). The KeyModel lane (C06 histories) shows at run time that the accepted API surface never yields two usable keys. The universal quantifier is sampled by the corpus of known escape shapes - a new shape is invisible to it."),
-    "C15": dict(level="other", lanes=[("corpus", dict()), ("matrix", dict()), ("miri", dict(runner="racefam", mode="seeds", seeds_quick=8, seeds_thorough=64, canary="canary_race"))],
+    "C15": dict(level="other", lanes=[("corpus", dict(dirs=["C15", "C07"])), ("matrix", dict()), ("miri", dict(runner="racefam", mode="seeds", seeds_quick=8, seeds_thorough=64, canary="canary_race"))],
                 explanation="Compile-gated execution + sanitizers. Escape routes for protected data (references outliving guards / closures / collections, shared access into owned collections, unsafe-only entry points, non-thread-safe payloads crossing threads) are attempted as minimal programs with compiling twins; accepted offending programs are executed (natively with a self-check, under Miri in the thorough tier). The auto-trait matrix is one always-compiling program that evaluates Send/Sync of every happylock type next to its std analogue at run time; happylock must be at least as strict. The accepted API surface is exercised under Miri on production locks (racefam) for data races and aliasing violations."),
     "C16": dict(level="exploration", lanes=[
         ("hlmon", dict(runner="dropfam")),
